@@ -7,6 +7,7 @@ package main
 
 import (
 	"fmt"
+	"os"
 	"go/token"
 	"go/types"
 	"runtime"
@@ -70,12 +71,16 @@ func (ts *threadState) spawn(r *Run, fr *frame, fn value, args []value) {
 				ts.panicVal = p
 			}
 			t.done = true
-			// hand the baton on: another unfinished spawned thread, else the main thread
+			// hand the baton on: another unfinished spawned thread, else the main thread; when the order
+			// of completion is a decision of the path (verif.FreeMapOrder), always the main thread, whose
+			// wait loop chooses
 			next := ts.threads[0]
-			for _, o := range ts.threads[1:] {
-				if !o.done {
-					next = o
-					break
+			if !r.freeMaps {
+				for _, o := range ts.threads[1:] {
+					if !o.done {
+						next = o
+						break
+					}
 				}
 			}
 			if ts.panicVal != nil {
@@ -160,14 +165,29 @@ func (ts *threadState) wait(r *Run, fr *frame) {
 	}
 	for {
 		var next *thread
+		var waiting []*thread
 		for _, o := range ts.threads[1:] {
 			if !o.done {
-				next = o
-				break
+				waiting = append(waiting, o)
 			}
 		}
-		if next == nil {
+		if len(waiting) == 0 {
 			break
+		}
+		next = waiting[0]
+		if r.freeMaps && len(waiting) > 1 {
+			// which goroutine runs (and so finishes) next is a decision of the path
+			k := 0
+			for k < len(waiting)-1 && r.freeChoice() {
+				k++
+			}
+			next = waiting[k]
+			if k > 0 {
+				r.tags = append(r.tags, fmt.Sprintf("goroutine %d runs before goroutine %d", waiting[k].id, waiting[0].id))
+			}
+			if !r.replaying() {
+				r.reached["goroutine order decided"]++
+			}
 		}
 		ts.switchTo(next)
 	}
@@ -242,6 +262,9 @@ func (r *Run) permuteMapOrder(fr *frame, instr *ssa.Range, li *listIter) {
 	if !hit {
 		return
 	}
+	if !r.orderBudget() {
+		return
+	}
 	n := len(li.items)
 	lim := r.cfg.MaxMapPerm
 	if lim <= 0 {
@@ -262,8 +285,183 @@ func (r *Run) permuteMapOrder(fr *frame, instr *ssa.Range, li *listIter) {
 		li.items[i], li.items[j] = li.items[j], li.items[i]
 		perm += fmt.Sprint(j)
 	}
+	if len(li.items) > n && r.freeChoice() {
+		// a larger map: the complete reversal is explored too (it flips the relative order of every pair)
+		for a, b := 0, len(li.items)-1; a < b; a, b = a+1, b-1 {
+			li.items[a], li.items[b] = li.items[b], li.items[a]
+		}
+		perm += "r"
+	}
+	if !identityPerm(perm) {
+		r.orderSites++
+	}
 	if !r.replaying() {
 		r.reached["map order decided"]++
 	}
 	r.tags = append(r.tags, fmt.Sprintf("maporder@%s:%s=%s", name, fr.pos(instr), perm))
+}
+
+// libraryShuffle models (*math/rand.Rand).Shuffle(n, swap).  It is the identity except where the
+// containers of moorara/algo (hash tables, sets) shuffle their traversal order on behalf of a function named
+// by cfg.MapOrder while verif.FreeMapOrder(true) is in force: there the traversal order is a decision of the
+// path - every permutation when n <= cfg.MaxMapPerm, the identity and the complete reversal otherwise
+// (the reversal flips the relative order of every pair of entries).
+func (r *Run) libraryShuffle(fr *frame, n int, swap value) {
+	if !r.freeMaps || n < 2 {
+		return
+	}
+	c := fr.caller
+	for c != nil {
+		p := fnPkgPath(c.fn)
+		if strings.HasSuffix(p, "/symboltable") || strings.HasSuffix(p, "/set") {
+			c = c.caller
+			continue
+		}
+		break
+	}
+	if c == nil {
+		return
+	}
+	name := infoOf(c.fn).name
+	if os.Getenv("GOSYM_DEBUG_SHUFFLE") != "" {
+		fmt.Fprintf(os.Stderr, "shuffle n=%d on behalf of %s (pkg %s)\n", n, name, fnPkgPath(c.fn))
+	}
+	hit := false
+	for _, w := range r.cfg.MapOrder {
+		if strings.Contains(name, w) {
+			hit = true
+		}
+	}
+	if !hit {
+		return
+	}
+	if !r.orderBudget() {
+		return
+	}
+	lim := r.cfg.MaxMapPerm
+	if lim <= 0 {
+		lim = 4
+	}
+	doSwap := func(i, j int) {
+		if i != j {
+			call(fr.i, fr, token.NoPos, swap, []value{i, j})
+		}
+	}
+	perm := ""
+	if n <= lim {
+		for i := 0; i < n-1; i++ {
+			j := i
+			for j < n-1 && r.freeChoice() {
+				j++
+			}
+			doSwap(i, j)
+			perm += fmt.Sprint(j)
+		}
+	} else if r.freeChoice() {
+		for a, b := 0, n-1; a < b; a, b = a+1, b-1 {
+			doSwap(a, b)
+		}
+		perm = "reversed"
+	}
+	if perm == "reversed" || !identityPerm(perm) {
+		r.orderSites++
+	}
+	if !r.replaying() {
+		r.reached["library traversal order decided"]++
+	}
+	r.tags = append(r.tags, fmt.Sprintf("shuffle@%s=%s", name, perm))
+}
+
+// fnPkgPath: the package a function belongs to (instantiations of generic functions have no package of
+// their own; their origin has).
+func fnPkgPath(fn *ssa.Function) string {
+	if fn.Pkg != nil {
+		return fn.Pkg.Pkg.Path()
+	}
+	if o := fn.Origin(); o != nil && o.Pkg != nil {
+		return o.Pkg.Pkg.Path()
+	}
+	if p := fn.Parent(); p != nil {
+		return fnPkgPath(p)
+	}
+	return ""
+}
+
+// orderBudget: may this traversal still be given a non-sorted order on this path?
+func (r *Run) orderBudget() bool {
+	lim := r.cfg.MaxOrderSites
+	if lim <= 0 {
+		lim = 1
+	}
+	return r.orderSites < lim
+}
+
+// identityPerm: a selection string "j0 j1 ..." (position i takes the element at j_i >= i) is the identity
+// iff every digit equals its index.
+func identityPerm(perm string) bool {
+	for i, c := range perm {
+		if c == 'r' {
+			return false
+		}
+		if int(c-'0') != i {
+			return false
+		}
+	}
+	return true
+}
+
+// librarySortShuffle models the time-seeded shuffle with which moorara/algo's quick sort starts: the
+// identity, except for sorts called by a function named by cfg.MapOrder while verif.FreeMapOrder(true) is
+// in force, where the input order is a decision of the path (every permutation when the slice has at most
+// cfg.MaxMapPerm elements, identity and reversal otherwise).  A sort with a strict total order gives the
+// same result on every path; a comparator that is not one shows.
+func (r *Run) librarySortShuffle(fr *frame, a []value) {
+	n := len(a)
+	if !r.freeMaps || n < 2 {
+		return
+	}
+	c := fr.caller
+	for c != nil && strings.HasSuffix(fnPkgPath(c.fn), "moorara/algo/sort") {
+		c = c.caller
+	}
+	if c == nil {
+		return
+	}
+	name := infoOf(c.fn).name
+	hit := false
+	for _, w := range r.cfg.MapOrder {
+		if strings.Contains(name, w) {
+			hit = true
+		}
+	}
+	if !hit || !r.orderBudget() {
+		return
+	}
+	lim := r.cfg.MaxMapPerm
+	if lim <= 0 {
+		lim = 4
+	}
+	perm := ""
+	if n <= lim {
+		for i := 0; i < n-1; i++ {
+			j := i
+			for j < n-1 && r.freeChoice() {
+				j++
+			}
+			a[i], a[j] = a[j], a[i]
+			perm += fmt.Sprint(j)
+		}
+	} else if r.freeChoice() {
+		for x, y := 0, n-1; x < y; x, y = x+1, y-1 {
+			a[x], a[y] = a[y], a[x]
+		}
+		perm = "r"
+	}
+	if !identityPerm(perm) {
+		r.orderSites++
+	}
+	if !r.replaying() {
+		r.reached["sort input order decided"]++
+	}
+	r.tags = append(r.tags, fmt.Sprintf("sortshuffle@%s=%s", name, perm))
 }
